@@ -143,6 +143,7 @@ struct SlipHarness : Harness {
             f["where"] = (long long)r.below(4);  // 0 enc source, 1 enc sink, 2 dec source, 3 dec sink
             f["pos"] = (long long)r.range(0, 2 * maxlen + 3 > 24 ? 24 : 2 * maxlen + 3);
             f["code"] = HARD_ERRORS[r.below(N_HARD_ERRORS)];
+            if ((f.geti("where") & 1) && r.chance(1, 5)) f["code"] = ENODATA;   // a sink may fail with the very code that means "end of data" on the source side
             if (f.geti("where") == 2 && r.chance(1, 2)) {  // the line fails or runs dry exactly between two frames, and is read again afterwards
                 size_t b = 0; int upto = (int)r.below((uint64_t)k);
                 for (int i = 0; i < upto; ++i) b += ref_encode(unhex(frames.at((size_t)i).s), sof).size();
@@ -255,7 +256,7 @@ struct SlipHarness : Harness {
         const Json &fault = plan.get("fault");
         int where = fam == "errors" ? (int)(fault.geti("where") & 3) : -1;
         int64_t fpos = fault.geti("pos"); if (fpos < 0) fpos = 0;
-        int fcode = (int)fault.geti("code", EIO); if (fcode <= 0 || fcode == EILSEQ || (fcode == ENODATA && where != 2) || fcode == EINTR || fcode == EAGAIN) fcode = EIO;  // transient codes are retried by the endpoint layer (C17), not 'returned unchanged'; ENODATA is 'the line is dry right now'
+        int fcode = (int)fault.geti("code", EIO); if (fcode <= 0 || fcode == EILSEQ || (fcode == ENODATA && where == 0) || fcode == EINTR || fcode == EAGAIN) fcode = EIO;  // transient codes are retried by the endpoint layer (C17), not 'returned unchanged'; ENODATA from the encoder's source is the end of the payload; from a sink it is an error code like any other
         int64_t rearm = fault.geti("rearm"); if (rearm < 0 || rearm > 16) rearm = 0;
 
         // ---- encode all frames with the real encoder
